@@ -1200,6 +1200,16 @@ class SyncInterpreter(BaseInterpreter[TContext, TEvent]):
             child.context.setdefault("input", child_input)
         # 🌐 Register under a systemId so siblings can address it.
         self._register_in_system(spawn_params.get("systemId"), child)
+        # ♻️ An id re-used while its previous holder is alive: stop that
+        #    actor instead of orphaning it (see `Interpreter._spawn_actor`).
+        previous = self._actors.get(actor_id)
+        if previous is not None and previous is not child:
+            logger.warning(
+                "⚠️ Actor id '%s' re-used while its actor is still alive; "
+                "stopping the earlier actor.",
+                actor_id,
+            )
+            previous.stop()
         self._actors[actor_id] = child
         self._actor_sources[actor_id] = key
 
